@@ -22,7 +22,17 @@ What S returns and what it is made of (per model):
              epoch whose candidates are those of epoch 0
 Flavour "trackpos": the states are the position OBJECTS of track 0 (label l = the position of epoch l, coordinates
 (l, -l-1, 0)); other epochs of the decoded track are its candidates. x, y, z may be observation names (the
-coordinates of whatever object the position is when the call is made)."""
+coordinates of whatever object the position is when the call is made).
+
+User functions that READ THE TRACK they are handed (per model, key "dep": {"S" | "Q" | "P": {"src": name, "off": d}}):
+the function reads the digit v of feature `src` (x, y, z, idx, hmm_inference, hmm_cost, a user feature; 0 when the track
+has no such feature) at epoch (k + off) mod N and answers
+    S(track, k) = row k of table number v mod (1 + len(SV)) of [S] + SV      Q = QT[k][s1][(s2 + v) mod L]
+    P = PT[k][s][(code(y) + v) mod YD]
+The model of a call is the one these functions define on the track AS IT IS WHEN THE CALL IS MADE (the harness reads what
+they see there before the call: `dep` of the result); during the backward step the values they would read change.
+User functions that RAISE (key "exc": {"S": [k, ...], "P": [[k, label], ...], "Q": [[k, label, label], ...]}): the call
+with those arguments raises UserFunctionError; a call of estimate that reaches one is outside the statement."""
 import math, copy, itertools, collections
 
 SFLAVS = ["int", "str", "tuple", "list", "obj", "objnh", "ident", "coords", "trackpos"]
@@ -124,6 +134,43 @@ def conts_of(m, N):
     if isinstance(c, str):
         return [c] * N
     return list(c)
+
+
+DEP_OFFS = [1, 1, 1, 2, -1, 0]
+
+
+class UserFunctionError(Exception):
+    """what a user function of the session raises where the model's `exc` says so"""
+
+
+def exc_of(m, which):
+    """the arguments at which the user function `which` of this model RAISES: S: epochs k; P: (k, label);
+    Q: (k, label, label)"""
+    return [tuple(a) if isinstance(a, list) else a for a in (m.get("exc") or {}).get(which, [])]
+
+
+def dep_of(m, which):
+    """(feature name, epoch offset) that the user function `which` ("S", "Q", "P") of this model READS FROM THE TRACK it
+    is handed, or None: S(track, k), Q(s1, s2, k, track), P(s, y, k, track) all receive the track and may look at it"""
+    d = (m.get("dep") or {}).get(which)
+    return (d["src"], d["off"]) if d else None
+
+
+def s_tables(m):
+    """the candidate tables S chooses from (the first one when S does not read the track)"""
+    return [m["S"]] + list(m.get("SV", []))
+
+
+def read_digit(fl, track, dep, k, N, R):
+    """what a track-reading user function sees: the digit of feature `src` at epoch (k + off) mod N of the track it is
+    handed (x, y, z: the coordinates of whatever object the position is), 0 when the track has no such feature"""
+    if dep is None:
+        return 0
+    src, off = dep
+    j = (k + off) % N
+    if src not in ("x", "y", "z", "idx") and src not in track.getListAnalyticalFeatures():
+        return 0
+    return fl.digits(track.getObsAnalyticalFeature(src, j), R)[0]
 
 
 def st_coords(sflav, lab):
@@ -313,6 +360,23 @@ def valid(case):
                 return False
             if m.get("share", "fresh") not in ("fresh", "const", "same"):
                 return False
+            for tab in m.get("SV", []):
+                if len(tab) != N or any(l >= L or l < 0 for row in tab for l in row):
+                    return False
+            for w, args in (m.get("exc") or {}).items():
+                ar = {"S": 0, "P": 2, "Q": 3}.get(w)
+                if ar is None:
+                    return False
+                for a in args:
+                    if ar == 0:
+                        if not (isinstance(a, int) and 0 <= a < N):
+                            return False
+                    elif not (isinstance(a, list) and len(a) == ar and 0 <= a[0] < N and all(0 <= l < L for l in a[1:])):
+                        return False
+            for w, d in (m.get("dep") or {}).items():
+                if w not in ("S", "Q", "P") or not isinstance(d["off"], int) or d["src"] in ("t", "timestamp") \
+                        or not isinstance(d["src"], str) or any(ch in d["src"] for ch in " ,;:/|@!^#"):
+                    return False
         if case["sflav"] not in SFLAVS:
             return False
         names = [f[0] for f in case["feats"]]
@@ -417,24 +481,31 @@ class Runner:
             return spool[lab]
 
         def functions(m):
-            SL, PT, QT = m["S"], m["P"], m["Q"]
+            PT, QT = m["P"], m["Q"]
+            tabs = s_tables(m)
+            dS, dQ, dP = dep_of(m, "S"), dep_of(m, "Q"), dep_of(m, "P")
+            xS, xQ, xP = set(exc_of(m, "S")), set(exc_of(m, "Q")), set(exc_of(m, "P"))
             conts, share = conts_of(m, N), m.get("share", "fresh")
             cache = {}
 
-            def build(k):
+            def build(SL, k):
                 objs_k = [shared_state(lab) if share != "fresh" else fl.make(lab) for lab in SL[k]]
                 return make_container(conts[k], objs_k, list(SL[k]), sflav), objs_k
 
             def S(track, k):
                 if track is not cur["track"]:
                     raise LookupError("S called with another track")
+                if k in xS:
+                    raise UserFunctionError("S(track, %d)" % k)
+                v = read_digit(fl, track, dS, k, N, R) % len(tabs)     # a candidate function that looks at the track
+                SL = tabs[v]
                 if share == "fresh" or conts[k] in UNSIZED:
-                    cont, objs_k = build(k)
+                    cont, objs_k = build(SL, k)
                 else:
                     key = 0 if (share == "same" and SL[k] == SL[0] and conts[k] == conts[0]) else k
-                    if key not in cache:
-                        cache[key] = build(key)
-                    cont, objs_k = cache[key]
+                    if (v, key) not in cache:
+                        cache[(v, key)] = build(SL, key)
+                    cont, objs_k = cache[(v, key)]
                 cur["rets"].append((k, cont, objs_k, list(SL[k])))
                 return cont
 
@@ -444,7 +515,9 @@ class Runner:
                 a, b = fl.state_label(s1), fl.state_label(s2)
                 if a is None or b is None or not (0 <= k < N - 1):
                     raise LookupError("Q called with %r, %r at epoch %r" % (s1, s2, k))
-                return QT[k][a][b]
+                if (k, a, b) in xQ:
+                    raise UserFunctionError("Q(%d, %d, %d, track)" % (a, b, k))
+                return QT[k][a][(b + read_digit(fl, track, dQ, k, N, R)) % L]
 
             def P(s, y, k, track):
                 if track is not cur["track"]:
@@ -452,7 +525,9 @@ class Runner:
                 a = fl.state_label(s)
                 if a is None or not (0 <= k < N):
                     raise LookupError("P called with %r at epoch %r" % (s, k))
-                return PT[k][a][fl.code(y, R, YD, cur.get("mode", 0) in (1, 2, 3, 4))]
+                if (k, a) in xP:
+                    raise UserFunctionError("P(%d, y, %d, track)" % (a, k))
+                return PT[k][a][(fl.code(y, R, YD, cur.get("mode", 0) in (1, 2, 3, 4)) + read_digit(fl, track, dP, k, N, R)) % YD]
             return S, Q, P
         funs = [functions(m) for m in case["models"]]
         B = self.boolform(case)      # how the session writes its flags: True / 1 / numpy.bool_(True)
@@ -508,6 +583,19 @@ class Runner:
                         else:
                             row.append(None)
                     pre.append(row)
+                # what the track-reading user functions of every model see in the track AS IT IS WHEN THE CALL IS MADE
+                # (the model the statement speaks about is the one S, Q, P define on the track handed to estimate)
+                dep = []
+                for m in case["models"]:
+                    if not m.get("dep"):
+                        dep.append(None)
+                        continue
+                    try:
+                        dep.append({"S": [read_digit(fl, tr, dep_of(m, "S"), k, N, R) for k in range(N)],
+                                    "Q": [read_digit(fl, tr, dep_of(m, "Q"), k, N, R) for k in range(N - 1)],
+                                    "P": [read_digit(fl, tr, dep_of(m, "P"), k, N, R) for k in range(N)]})
+                    except Exception as e:
+                        dep.append({"unreadable": type(e).__name__})
                 obsarg = st["obs"][0] if (len(st["obs"]) == 1 and st.get("obs_as_str")) else list(st["obs"])
                 kw = {}
                 if st.get("logarg") is not None:
@@ -528,7 +616,7 @@ class Runner:
                     from engine import err_kind
                     status, detail = err_kind(e), str(e)[:100]
                 cur["track"] = None
-                ests.append({"status": status, "detail": detail, "pre": pre, "mut": self.modified(fl, cur["rets"]),
+                ests.append({"status": status, "detail": detail, "pre": pre, "dep": dep, "mut": self.modified(fl, cur["rets"]),
                              "inf": self.read_col(fl, tr, "hmm_inference", N),
                              "cost": self.read_col(fl, tr, "hmm_cost", N)})
             else:
@@ -552,11 +640,24 @@ def request(case, fbits, tok_list):
     feats = tok_list(("%s:%s" % (n, tok_list(fbits(c) for c in vals)) for n, vals in case["feats"]), "|")
     ms = []
     for m in case["models"]:
-        S = ";".join(("u" if c in UNSIZED else "e" if not row else ",".join(map(str, row)))
-                     for row, c in zip(m["S"], conts_of(m, N)))
+        def stab(tab):
+            return ";".join(("u" if c in UNSIZED else "e" if not row else ",".join(map(str, row)))
+                            for row, c in zip(tab, conts_of(m, N)))
+        S = stab(m["S"])
         Pf = tok_list(fbits(v) for r in m["P"] for c in r for v in c)
         Qf = tok_list(fbits(v) for r in m["Q"] for c in r for v in c)
-        ms.append("%s/%s/%s" % (S, Pf, Qf))
+        if m.get("dep") or m.get("SV") or m.get("exc"):
+            # user functions that read the track / that raise: <depS>!<depQ>!<depP>!<exc>!<further S tables>
+            ds = []
+            for w in ("S", "Q", "P"):
+                d = dep_of(m, w)
+                ds.append("-" if d is None else "%s^%d" % (d[0], d[1] % N))
+            ex = ["S,%d" % k for k in exc_of(m, "S")] + ["Q,%d,%d,%d" % a for a in exc_of(m, "Q")] + \
+                 ["P,%d,%d" % a for a in exc_of(m, "P")]
+            ds.append(";".join(ex) if ex else "-")
+            ms.append("%s/%s/%s/%s" % (S, Pf, Qf, "!".join(ds + [stab(t) for t in m.get("SV", [])])))
+        else:
+            ms.append("%s/%s/%s" % (S, Pf, Qf))
     steps = []
     for st in case["steps"]:
         op = st["op"]
@@ -663,19 +764,50 @@ def est_contexts(case):
     return out
 
 
+def eff_model(case, ctx, res):
+    """the model of THIS call: candidate labels per epoch and the tables behind P and Q, as the user functions define them
+    on the track handed to estimate (`res["dep"]`: what the track-reading ones saw in it when the call was made; a function
+    that does not look at the track is its table). None when such a reading was not possible."""
+    N, L, YD = case["N"], case["L"], case["YD"]
+    mS, mQ, mP = case["models"][ctx["S"]], case["models"][ctx["Q"]], case["models"][ctx["P"]]
+    dep = res.get("dep") or [None] * len(case["models"])
+
+    def seen(mi, m, w, n):
+        if dep_of(m, w) is None:
+            return [0] * n
+        d = dep[mi] if mi < len(dep) else None
+        if not d or w not in d or len(d[w]) != n:
+            return None
+        return d[w]
+    vS, vQ, vP = seen(ctx["S"], mS, "S", N), seen(ctx["Q"], mQ, "Q", N - 1), seen(ctx["P"], mP, "P", N)
+    if vS is None or vQ is None or vP is None:
+        return None
+    tabs = s_tables(mS)
+    SL = [tabs[vS[k] % len(tabs)][k] for k in range(N)]
+    PT = [[[mP["P"][k][a][(c + vP[k]) % YD] for c in range(YD)] for a in range(L)] for k in range(N)]
+    QT = [[[mQ["Q"][k][a][(b + vQ[k]) % L] for b in range(L)] for a in range(L)] for k in range(N - 1)]
+    return SL, PT, QT
+
+
 def in_statement(case, ctx, res):
     """is this estimate call one the property speaks about? (every epoch has a candidate, the observation features
     exist and a position is made of enough numeric fields, and what is declared to be likelihoods is not negative)"""
     N, R, YD = case["N"], case["R"], case["YD"]
     st = ctx["step"]
     mode = st.get("mode", 0)
-    SL = case["models"][ctx["S"]]["S"]
-    PT, QT = case["models"][ctx["P"]]["P"], case["models"][ctx["Q"]]["Q"]
+    em = eff_model(case, ctx, res)
+    if em is None:
+        return False                                  # a user function could not read the track (harness plumbing)
+    SL, PT, QT = em
     n = [len(r) for r in SL]
     if any(x == 0 for x in n) or math.prod(n) > CAP:
         return False                                  # an epoch without candidates: outside the quantifier
     if any(c in UNSIZED for c in conts_of(case["models"][ctx["S"]], N)):
         return False                                  # S did not return a collection of candidates
+    if exc_of(case["models"][ctx["S"]], "S") \
+            or any(lab in SL[k] for (k, lab) in exc_of(case["models"][ctx["P"]], "P")) \
+            or any(k + 1 < N and a in SL[k] and b in SL[k + 1] for (k, a, b) in exc_of(case["models"][ctx["Q"]], "Q")):
+        return False                                  # a user function raises for a candidate: S, Q, P do not define a model
     if any(c is None for row in res["pre"] for c in row):
         return False                                  # an observation feature the track does not have
     if len(st["obs"]) < fields_needed(mode):
@@ -698,11 +830,10 @@ def check_est(case, ctx, res, i):
     N, L, R, YD = case["N"], case["L"], case["R"], case["YD"]
     st = ctx["step"]
     mode = st.get("mode", 0)
-    SL = case["models"][ctx["S"]]["S"]
-    PT, QT = case["models"][ctx["P"]]["P"], case["models"][ctx["Q"]]["Q"]
-    n = [len(r) for r in SL]
     if not in_statement(case, ctx, res):
         return None
+    SL, PT, QT = eff_model(case, ctx, res)
+    n = [len(r) for r in SL]
     codes = [code_of_pre(res["pre"][k], mode, R, YD) for k in range(N)]
     what = "estimate call %d (object %d, track %d)" % (i, st["h"], st["t"])
     if res["status"] != "ok":
@@ -747,8 +878,7 @@ def prefix_costs_ok(case, ctx, res):
     """recorded costs are the prefix costs of the recorded sequence (used when validating a tie against the model)"""
     N, R, YD = case["N"], case["R"], case["YD"]
     st = ctx["step"]
-    SL = case["models"][ctx["S"]]["S"]
-    PT, QT = case["models"][ctx["P"]]["P"], case["models"][ctx["Q"]]["Q"]
+    SL, PT, QT = eff_model(case, ctx, res)
     as_num = case["sflav"] == "int"
     labs = [int(c) if as_num else c[1] for c in res["inf"]]
     codes = [code_of_pre(res["pre"][k], st.get("mode", 0), R, YD) for k in range(N)]
@@ -769,6 +899,11 @@ def prefix_costs_ok(case, ctx, res):
 def tie_ok(case, ctx, res, i):
     """a result that differs from the model's is accepted iff the call is inside the statement, the result is optimal
     and the recorded costs are the prefix costs of the recorded sequence"""
+    if ctx["flag"] is None:
+        # only an earlier estimate(log=True) of this object declared logarithms: the statement leaves open whether that
+        # still stands (the oracle accepts either reading and demands nothing when one of them is not a model); the
+        # MODEL keeps the flag (self.log = self.log or log), and it is the model's choice among ties that is validated here
+        ctx = dict(ctx, flag=True)
     if not in_statement(case, ctx, res):
         return False
     if check_est(case, ctx, res, i) is not None:
@@ -810,12 +945,15 @@ def cells_equal(a, b):
     return True
 
 
-def same_shape(case, ctx, a, b):
+def same_shape(case, ctx, res, a, b):
     """two partially written hmm_inference columns: states at the same epochs, each a candidate of its epoch; other
     cells equal"""
     if a is None or b is None or len(a) != len(b):
         return False
-    SL = case["models"][ctx["S"]]["S"]
+    em = eff_model(case, ctx, res)
+    if em is None:
+        return False
+    SL = em[0]
     as_num = case["sflav"] == "int"
     for k, (x, y) in enumerate(zip(a, b)):
         if as_num:
@@ -849,7 +987,7 @@ def compare(case, io, mo):
         # outside the statement (an epoch without candidates: every value saturates at the sentinel and ties), the call
         # raised on both sides after the same partial writes up to the choice among tied states
         if a["status"] == b["status"] != "ok" and not in_statement(case, ctxs[i], a) and cells_equal(a["cost"], b["cost"]) \
-                and same_shape(case, ctxs[i], a["inf"], b["inf"]):
+                and same_shape(case, ctxs[i], a, a["inf"], b["inf"]):
             return None
         return "estimate call %d: impl %s inf=%s cost=%s, model %s inf=%s cost=%s" % (
             i, a["status"], a["inf"], a["cost"], b["status"], b["inf"], b["cost"])
@@ -875,14 +1013,26 @@ LIK_SETS = {"lik3": [0, 0.5, 1], "lik8": [i / 8.0 for i in range(9)], "likw": [0
 LOG_SETS = {"logint": [0, -1, -2, -3], "logdy": [-i / 4.0 for i in range(13)], "logpm": [-2, -1, 0, 1, 2]}
 
 
-def gen_model(rng, N, L, YD, kind, maxseq):
+def gen_model(rng, N, L, YD, kind, maxseq, sflav="int"):
+    # user functions that LOOK AT THE TRACK they are handed (S(track, k), Q(s1, s2, k, track), P(s, y, k, track)): the
+    # candidate table / the column of the likelihood table is selected by a value read at epoch k + off
+    dep, nalt = {}, 0
+    if rng.random() < 0.22:
+        srcs = ["x", "x", "hmm_inference", "hmm_inference", "hmm_cost", "ya", "ya", "yb", "idx", "y", "z"]
+        if sflav in POSFLAVS:
+            srcs += ["x"] * 5
+        for w in rng.choice(["S", "S", "S", "S", "Q", "P", "SQ", "SP", "SQP"]):
+            dep[w] = {"src": rng.choice(srcs), "off": rng.choice(DEP_OFFS)}
+        if "S" in dep:
+            nalt = rng.choice([1, 1, 2])
     while True:
         if rng.random() < 0.35:
             row = [rng.randrange(L) for _ in range(rng.randrange(1, 4))]
             S = [list(row) for _ in range(N)]
         else:
             S = [[rng.randrange(L) for _ in range(rng.randrange(1, 4))] for _ in range(N)]
-        if math.prod(len(r) for r in S) <= maxseq:
+        SV = [[[rng.randrange(L) for _ in range(rng.randrange(1, 4))] for _ in range(N)] for _ in range(nalt)]
+        if math.prod(max(len(t[k]) for t in [S] + SV) for k in range(N)) <= maxseq:
             break
     vals = LIK_SETS[kind] if kind in LIK_SETS else LOG_SETS[kind]
     if rng.random() < 0.25:      # observation model that does not depend on the epoch
@@ -896,6 +1046,18 @@ def gen_model(rng, N, L, YD, kind, maxseq):
     else:
         Qt = [[[rng.choice(vals) for _ in range(L)] for _ in range(L)] for _ in range(N - 1)]
     m = {"S": S, "P": Pt, "Q": Qt, "kind": "lik" if kind in LIK_SETS else "log"}
+    if dep:
+        m["dep"] = dep
+    if SV:
+        m["SV"] = SV
+    if rng.random() < 0.05:      # a user function that raises for some arguments (outside the statement when it is reached)
+        w = rng.choice(["S", "P", "P", "Q", "Q"])
+        if w == "S":
+            m["exc"] = {"S": [rng.randrange(N)]}
+        elif w == "P":
+            m["exc"] = {"P": [[rng.randrange(N), rng.randrange(L)] for _ in range(rng.choice([1, 1, 2]))]}
+        elif N >= 2:
+            m["exc"] = {"Q": [[rng.randrange(N - 1), rng.randrange(L), rng.randrange(L)] for _ in range(rng.choice([1, 1, 2, 3]))]}
     # what S returns: the container type per epoch, and whether containers / state objects are shared between calls
     r = rng.random()
     if r < 0.60:
@@ -917,7 +1079,7 @@ def log_twin(m):
     f = lambda v: math.log(v + 1e-300)
     t = {"S": [list(r) for r in m["S"]], "P": [[[f(v) for v in c] for c in r] for r in m["P"]],
          "Q": [[[f(v) for v in c] for c in r] for r in m["Q"]], "kind": "log"}
-    for k in ("cont", "share"):
+    for k in ("cont", "share", "dep", "SV", "exc"):
         if k in m:
             t[k] = copy.deepcopy(m[k])
     return t
@@ -936,7 +1098,7 @@ def gen_session(rng, big=False):
     models = []
     for _ in range(rng.choice([1, 2, 2, 3])):
         kind = rng.choice(["lik3", "lik8", "lik8", "likw", "likw", "likw", "lik01", "logint", "logdy", "logpm"])
-        m = gen_model(rng, N, L, YD, kind, 1500 if not big else CAP)
+        m = gen_model(rng, N, L, YD, kind, 1500 if not big else CAP, sflav)
         models.append(m)
         if m["kind"] == "lik" and rng.random() < 0.2:
             models.append(log_twin(m))
@@ -1082,7 +1244,9 @@ def describe(case):
             "values": "sess " + case["sflav"], "via": "%d est%s%s" % (ne, " copy" if "copy" in ops else "", " edit" if "obs" in ops else ""),
             "S returns": "+".join(kinds) if len(kinds) <= 2 else "%d kinds" % len(kinds),
             "share": "+".join(sorted(set(m.get("share", "fresh") for m in case["models"]))),
-            "xyz obs": any(n in ("x", "y", "z") for s in case["steps"] if s["op"] == "est" for n in s["obs"])}
+            "xyz obs": any(n in ("x", "y", "z") for s in case["steps"] if s["op"] == "est" for n in s["obs"]),
+            "raises": "".join(w for w in ("S", "Q", "P") if any(exc_of(m, w) for m in case["models"])) or "-",
+            "reads track": "".join(w for w in ("S", "Q", "P") if any(dep_of(m, w) for m in case["models"])) or "-"}
 
 
 def shrink(case):
@@ -1118,6 +1282,14 @@ def shrink(case):
         c["N"] = N - 1
         for m in c["models"]:
             m["S"] = m["S"][:-1]; m["P"] = m["P"][:-1]; m["Q"] = m["Q"][:-1]
+            if "SV" in m:
+                m["SV"] = [t[:-1] for t in m["SV"]]
+            if "exc" in m:      # keep what still designates an epoch / a transition of the shorter track
+                ex = {"S": [k for k in exc_of(m, "S") if k < N - 1], "P": [list(a) for a in exc_of(m, "P") if a[0] < N - 1],
+                      "Q": [list(a) for a in exc_of(m, "Q") if a[0] < N - 2]}
+                m["exc"] = {w: v for w, v in ex.items() if v}
+                if not m["exc"]:
+                    del m["exc"]
             if isinstance(m.get("cont"), list):
                 m["cont"] = m["cont"][:-1]
         c["feats"] = [[n, v[:-1]] for n, v in c["feats"]]
@@ -1133,6 +1305,36 @@ def shrink(case):
                     c = copy.deepcopy(case)
                     c["models"][mi]["S"][k] = row[:j] + row[j + 1:]
                     yield c
+    # user functions that do not raise
+    for mi, m in enumerate(case["models"]):
+        if m.get("exc"):
+            c = copy.deepcopy(case)
+            del c["models"][mi]["exc"]
+            yield c
+    # user functions that do not look at the track
+    for mi, m in enumerate(case["models"]):
+        if m.get("dep") or m.get("SV"):
+            c = copy.deepcopy(case)
+            c["models"][mi].pop("dep", None); c["models"][mi].pop("SV", None)
+            yield c
+            for w in sorted(m.get("dep") or {}):
+                if len(m["dep"]) > 1:
+                    c = copy.deepcopy(case)
+                    del c["models"][mi]["dep"][w]
+                    if w == "S":
+                        c["models"][mi].pop("SV", None)
+                    yield c
+            if len(m.get("SV", [])) > 1:
+                c = copy.deepcopy(case)
+                c["models"][mi]["SV"] = c["models"][mi]["SV"][:1]
+                yield c
+            for ti, tab in enumerate(m.get("SV", [])):
+                for k, row in enumerate(tab):
+                    if len(row) > 1:
+                        for j in range(len(row)):
+                            c = copy.deepcopy(case)
+                            c["models"][mi]["SV"][ti][k] = row[:j] + row[j + 1:]
+                            yield c
     # plain containers, nothing shared
     for mi, m in enumerate(case["models"]):
         if "cont" in m or "share" in m:
